@@ -37,6 +37,11 @@ CHECKS["C14"] = ("exploration",
          "4.C14", "generated grammars x two generated renderings (seeded proptest choice streams) x metamorphic oracle: byte-identical output",
          "trusted: the printer (both renderings are parsed and compared as trees first; a mismatch is reported as exit 2, not as a violation)")
 
+CHECKS["C10"] = ("exploration",
+         "Differential: repeated compilations of one grammar text must give byte-identical script, --dfa and --regex output: 3 compilations per (grammar, shell) inside one process (every randomly seeded container instance gets new keys), and separately started complgen processes with different environments, path spellings and destinations, also compared with the in-process result; bundled examples + large random grammars.",
+         "4.C10", "generated large grammars + bundled examples x differential oracle across repeated in-process compilations and separately started processes with generated environments",
+         "a hash seed fixed at compile time cannot be varied from outside (stated limit); trusted: nothing beyond byte comparison")
+
 NOT_YET = {
 }
 
